@@ -476,7 +476,7 @@ def replay(ctx: Ctx, case):
 def run(ctx: Ctx):
     q = ctx.tier == "quick"
     parts = [given_part(ctx, "cli-meta", cli_meta_cases(), check_cli_meta, per_shard(ctx, 160 if q else 4000), batch=20 if q else 50),
-             given_part(ctx, "roundtrip", cases(4, 6), check_roundtrip, per_shard(ctx, 4000 if q else 90000), batch=100 if q else 200),
+             given_part(ctx, "roundtrip", cases(4, 6), check_roundtrip, per_shard(ctx, 3400 if q else 90000), batch=100 if q else 200),
              # more than 2**7.5 (and 2**8) bins, few pixels: products of two bin ids no longer fit the narrow id types
              given_part(ctx, "roundtrip-tall", cases(2, 4, max_nnz=40, min_total_bins=185), check_roundtrip, per_shard(ctx, 240 if q else 8000), batch=15)]
     if not q:
